@@ -12,17 +12,32 @@ import zlib
 VARIANTS = []
 
 
-def V(vid, props, file, old=None, new=None, expect=(), kind='fire', where='', fn=None, **kw):
+def V(vid, props, file, old=None, new=None, expect=(), kind='fire', where='', fn=None, pkg_fn=None, **kw):
     d = dict(id=vid, props=list(props), file=file, expect=list(expect), kind=kind, where=where, **kw)
-    if fn is not None:
+    if pkg_fn is not None:
+        d['pkg_fn'] = pkg_fn
+    elif fn is not None:
         d['fn'] = fn
     else:
         d['old'], d['new'] = old, new
     VARIANTS.append(d)
 
 
-def S(vid, props, file, old=None, new=None, fn=None):
-    V(vid, props, file, old, new, kind='silent', fn=fn)
+def S(vid, props, file, old=None, new=None, fn=None, pkg_fn=None):
+    V(vid, props, file, old, new, kind='silent', fn=fn, pkg_fn=pkg_fn)
+
+
+ALL = ['C%02d' % i for i in range(1, 21) if i != 5]
+
+
+def pkg_rename(old, new):
+    def fn(filename, src):
+        return re.sub(rf'\b{re.escape(old)}\b', new, src)
+    return fn
+
+
+def pkg_shift(filename, src):
+    return '# reformatted\n\n' + src.replace('\n\n\n', '\n\n\n\n')
 
 
 # ------------------------------------------------------------------ helpers on source text
@@ -92,8 +107,8 @@ V('F1_dtype_cache_reads_option', ['C09'], 'dtypes.py', "        x._set_scale(sca
   "        x._set_scale(scale)\n        if bitstring.options.bytealigned and x._bitlength is not None:\n            x._bitlength = (x._bitlength + 7) // 8 * 8\n        return x", ['F1'], where='Dtype._create')
 V('F2_mutate_cached_tokens', ['C09'], 'bits.py', "        token_list = utils.preprocess_tokens(fmt)\n        dtype1, dtype2, bits_per_group, has_length_in_fmt = Bits._process_pp_tokens(token_list, fmt)",
   "        token_list = utils.preprocess_tokens(fmt)\n        token_list.reverse()\n        dtype1, dtype2, bits_per_group, has_length_in_fmt = Bits._process_pp_tokens(token_list, fmt)", ['F2'])
-V('F3_dtype_written_later', ['C09'], 'array_.py', "        if isinstance(new_dtype, Dtype):\n            self._dtype = new_dtype",
-  "        if isinstance(new_dtype, Dtype):\n            new_dtype._scale = None\n            self._dtype = new_dtype", ['F3'])
+V('F3_dtype_written_later', ['C09'], 'array_.py', "        if isinstance(new_dtype, Dtype):\n            dtype = new_dtype",
+  "        if isinstance(new_dtype, Dtype):\n            new_dtype._scale = None\n            dtype = new_dtype", ['F3'])
 V('G1_lsb0_table_no_invert', ['C09', 'C12'], 'bitstring_options.py', "'getslice_withstep': BitStore.getslice_withstep_lsb0, 'invert': BitStore.invert_lsb0}",
   "'getslice_withstep': BitStore.getslice_withstep_lsb0}", ['G1'])
 V('G1_msb0_table_no_prepend', ['C09', 'C12'], 'bitstring_options.py', "'_append': BitArray._append_msb0,\n                       '_prepend': BitArray._append_lsb0},",
@@ -176,8 +191,8 @@ V('A4_join_returns_operand', ['C04'], 'bits.py', "        bs = self.__class__._c
   "        bs = self.__class__._create_from_bitstype(bs)\n        if len(self) == 0:\n            return bs\n        return bs.__add__(self)", ['A4'])
 V('A3_flag_set_in_bitarray_copy', ['C04'], 'bitarray_.py', "        assert s_copy._bitstore.immutable is False\n        return s_copy", "        s_copy._bitstore.immutable = True\n        return s_copy", ['A3'])
 V('A9_array_copy_shares', ['C04'], 'array_.py', "        a_copy.data = copy.copy(self.data)", "        a_copy.data = self.data", ['A9'])
-V('A9_array_slice_shares', ['C04'], 'array_.py', "                a.data = self.data[start * self._dtype.length: stop * self._dtype.length]",
-  "                a.data = self.data if (start, stop) == (0, len(self)) else self.data[start * self._dtype.length: stop * self._dtype.length]", ['A9'])
+V('A9_array_slice_shares', ['C04'], 'array_.py', "                a.data = self.data[start * self._dtype.bitlength: stop * self._dtype.bitlength]",
+  "                a.data = self.data if (start, stop) == (0, len(self)) else self.data[start * self._dtype.bitlength: stop * self._dtype.bitlength]", ['A9'])
 S('A_S_rename_copy_local', ['C04'], 'bits.py', fn=rename_local('s_copy', 'duplicate'))
 S('A_S_shift_bitarray', ['C04'], 'bitarray_.py', fn=shift_lines)
 S('A_S_inline_copy', ['C04'], 'bits.py', "        s_copy = self.__class__()\n        s_copy._bitstore = self._bitstore._copy()\n        return s_copy",
@@ -333,3 +348,16 @@ V('POST_repr_drops_pos', ['C19', 'C06'], 'bitstream.py', "        return self._r
 V('DELEG_array_tobytes_trailing', ['C17'], 'array_.py', "        return self.data.tobytes()", "        return self.data[:len(self) * self._dtype.bitlength].tobytes()", ['DELEG'])
 V('DELEG_bytes_guard_removed', ['C17'], 'bits.py', "        if len(self) % 8:\n            raise bitstring.InterpretError(\"Cannot interpret as bytes unambiguously - not multiple of 8 bits.\")\n        return self._bitstore.tobytes()", "        return self._bitstore.tobytes()", ['DELEG'])
 V('DELEG_tofile_writes_bytes_property', ['C17'], 'bits.py', "            f.write(chunk.tobytes())", "            f.write(chunk.bytes if len(chunk) % 8 == 0 else chunk.tobytes()[:-1])", ['DELEG'])
+
+
+# ------------------------------------------------------------------ package-wide refactorings (must stay silent everywhere)
+S('PKG_S_rename_validator', ALL, '*', pkg_fn=pkg_rename('_validate_slice', '_check_range'))
+S('PKG_S_rename_promoter', ALL, '*', pkg_fn=pkg_rename('_create_from_bitstype', '_promote'))
+S('PKG_S_rename_addright', ALL, '*', pkg_fn=pkg_rename('_addright', '_extend_right'))
+S('PKG_S_rename_truncate', ALL, '*', pkg_fn=pkg_rename('bs', 'operand'))
+S('PKG_S_reformat_all', ALL, '*', pkg_fn=pkg_shift)
+S('E3_S_in_place_default', ['C07'], 'bits.py', "        ba = bitstring.options.bytealigned if bytealigned is None else bytealigned\n        p = self._find(bs, start, end, ba)", "        if bytealigned is None:\n            bytealigned = bitstring.options.bytealigned\n        p = self._find(bs, start, end, bytealigned)")
+S('A_S_copy_via_local', ['C04', 'C16', 'C01'], 'bits.py', "        s = self._copy()\n        s._invert_all()\n        return s", "        result = self._copy()\n        result._invert_all()\n        return result")
+S('POSW_S_chained_guard', ['C06', 'C20'], 'bitstream.py', "        if pos < 0 or pos > len(self._bitstore):\n            raise bitstring.CreationError", "        if not 0 <= pos <= len(self._bitstore):\n            raise bitstring.CreationError")
+S('N_S_ternary_to_if', ['C20', 'C19'], 'bits.py', "        trailing_bit_length = len(self) % bits_per_group if has_length_in_fmt and bits_per_group else 0", "        trailing_bit_length = 0\n        if has_length_in_fmt and bits_per_group:\n            trailing_bit_length = len(self) % bits_per_group")
+S('H_S_table_as_dict_call', ['C18'], 'utils.py', "PACK_CODE_SIZE: Dict[str, int] = {'b': 1, 'B': 1, 'h': 2, 'H': 2, 'l': 4, 'L': 4, 'i': 4, 'I': 4,\n                                  'q': 8, 'Q': 8, 'e': 2, 'f': 4, 'd': 8}", "PACK_CODE_SIZE: Dict[str, int] = {'q': 8, 'Q': 8, 'e': 2, 'f': 4, 'd': 8, 'b': 1, 'B': 1, 'h': 2, 'H': 2, 'l': 4, 'L': 4,\n                                  'i': 4, 'I': 4}")
